@@ -42,6 +42,16 @@ RULE = ("random polylines / manifold surfaces / tet meshes (incl. disconnected),
 _CACHE = {}
 
 
+def _disjoint_union(m1, m2):
+    """two meshes of the same kind side by side (the second one shifted far away)"""
+    off = len(m1["V"])
+    m = {"kind": m1["kind"], "V": [list(v) for v in m1["V"]] + [[v[0] + 50.0, v[1], v[2]] for v in m2["V"]],
+         "tag": f"{m1.get('tag')}|{m2.get('tag')}+union"}
+    for k in ("F", "C", "E"):
+        if k in m1: m[k] = [list(el) for el in m1[k]] + [[x + off for x in el] for el in m2[k]]
+    return m
+
+
 def cases(rng, tier):
     n = 3500 if tier == "quick" else 10000
     for i in range(n):
@@ -51,6 +61,11 @@ def cases(rng, tier):
         if kind == "surface": opts += ["face", "face", "fforest"]
         if kind == "volume": opts += ["cell", "cell", "cforest"]
         t = rng.choice(opts)
+        if t.endswith("forest") and rng.random() < 0.5:
+            # forests need several trees to say anything: a second (and sometimes third) component of the same kind
+            for _ in range(rng.choice([1, 1, 2])):
+                m2 = H.gen_mesh(rng, "quick", kinds=(kind,), weights=(1,))
+                mesh = _disjoint_union(mesh, m2)
         nel = len(mesh["V"]) if t in ("edge", "mst", "eforest") else len(mesh["F"]) if t in ("face", "fforest") else len(mesh["C"])
         case = {"mesh": mesh, "t": t, "root": rng.randrange(nel) if rng.random() < 0.8 else None, "rand": rng.randrange(10**6),
                 "avoid_boundary": False, "excl": [], "w": "length", "wseed": rng.randrange(1000)}
@@ -70,6 +85,7 @@ def cases(rng, tier):
             case["avoid_boundary"] = rng.random() < 0.3
             case["w"] = rng.choice(["one", "length", "length", "dict", "attr"])
         if t.endswith("forest"): case["root"] = None
+        case["read"] = rng.choice(["trees-first", "forest-first"])     # order in which the accessors are read (each twice)
         # input representation
         if case["root"] is not None and rng.random() < 0.15: case["rrep"] = "npint"
         if case.get("excl_given") and t in ("edge", "face", "cell", "fforest"):
@@ -227,22 +243,34 @@ def _run(case):
             else: forest = T.CellSpanningForest(m)()
         _history(case, forest if t.endswith("forest") else tree)
         if t.endswith("forest"):
-            out["roots"] = [int(r) for r in forest.roots]
-            out["trees"] = []
-            for tr in forest.trees:
-                P, C, E = _canon_tree(tr, n)
-                out["trees"].append({"root": int(tr.root), "P": P, "C": C, "E": E, "T": _trav(tr.traverse("BFS")), "S": _trav(tr.traverse("DFS"))})
-            out["E"] = ",".join(f"{int(a)}-{int(b)}" for a, b in forest.edges)
-            out["T"] = _trav(forest.traverse("BFS"))
-            out["S"] = _trav(forest.traverse("DFS"))
-            out["ntrees"] = int(forest.n_trees)
+            def read_trees():
+                res = []
+                for tr in forest.trees:
+                    P, C, E = _canon_tree(tr, n)
+                    res.append({"root": int(tr.root), "P": P, "C": C, "E": E, "T": _trav(tr.traverse("BFS")), "S": _trav(tr.traverse("DFS"))})
+                return res
+
+            def read_forest():
+                return {"roots": [int(r) for r in forest.roots], "E": ",".join(f"{int(a)}-{int(b)}" for a, b in forest.edges),
+                        "T": _trav(forest.traverse("BFS")), "S": _trav(forest.traverse("DFS")), "ntrees": int(forest.n_trees),
+                        "E_index": ",".join(f"{int(a)}-{int(b)}" for i in range(forest.n_trees) for a, b in forest[i].edges)}
+            # every accessor is read twice, in the order asked for; values are compared, never identities
+            if case.get("read") == "forest-first":
+                f1 = read_forest(); t1 = read_trees(); f2 = read_forest(); t2 = read_trees()
+            else:
+                t1 = read_trees(); f1 = read_forest(); t2 = read_trees(); f2 = read_forest()
+            out.update({k: f1[k] for k in ("roots", "E", "T", "S", "ntrees")})
+            out["trees"] = t2                       # the LAST read is what the structural clauses look at
+            out["reads"] = {"f1": f1, "f2": f2, "t1": t1, "t2": t2}
         else:
             out["tree_root"] = int(tree.root)
-            out["P"], out["C"], out["E"] = _canon_tree(tree, n, sort_children=(t == "mst"))
+            first = _canon_tree(tree, n, sort_children=(t == "mst"))
             out["T"] = _trav(tree.traverse("BFS"))
             out["S"] = _trav(tree.traverse("DFS"))
             out["T2"] = _trav(tree.traverse("BFS"))      # a second traversal of the same tree
             out["S2"] = _trav(tree.traverse("DFS"))
+            out["P"], out["C"], out["E"] = _canon_tree(tree, n, sort_children=(t == "mst"))     # second read of the tables
+            out["first_read"] = list(first)
         out["r"] = "ok"
     except Exception as e:  # noqa
         out["r"] = H.exc_token(e); out["msg"] = str(e)[:100]
@@ -443,6 +471,20 @@ def _oracle(case):
         if len(roots) != ncomp or len({comp[r] for r in roots}) != ncomp or o["ntrees"] != ncomp:
             out.append({"key": f"C10/{t}/one-tree-per-component", "what": "forest does not have exactly one tree per connected component",
                         "detail": f"roots {roots[:8]} components {ncomp}"})
+        rd = o["reads"]
+        for name, a, b in (("forest accessors (edges / traverse / roots / n_trees / forest[i].edges)", rd["f1"], rd["f2"]),
+                           ("tables of the trees (parent / children / edges / traverse)", rd["t1"], rd["t2"])):
+            if a != b:
+                which = [k for k in a if a[k] != b[k]] if isinstance(a, dict) else [i for i, (x, y) in enumerate(zip(a, b)) if x != y]
+                out.append({"key": f"C10/{t}/reads-not-repeatable/" + ("forest" if isinstance(a, dict) else "trees"),
+                            "what": f"reading the {name} a second time (order {case.get('read')}) gives other values than the first read",
+                            "detail": f"differs at {which[:6]}: {str(a[which[0]])[:90]} vs {str(b[which[0]])[:90]}"})
+        concat = ",".join(x["E"] for x in rd["t1" if case.get("read") != "forest-first" else "t2"] if x["E"])
+        for nm, f in (("first", rd["f1"]), ("second", rd["f2"])):
+            want = ",".join(x["E"] for x in (rd["t1"] if nm == "first" and case.get("read") != "forest-first" else rd["t2"]) if x["E"])
+            if f["E"] != want and f["E"] != concat:
+                out.append({"key": f"C10/{t}/forest-edges-ne-concatenation", "what": f"forest.edges ({nm} read) is not the concatenation of the trees' edge lists",
+                            "detail": f"{f['E'][:100]} vs {want[:100]}"}); break
         covered = []
         for tr in o["trees"]:
             P, C, E = _parse_tree(tr, n)
@@ -464,6 +506,9 @@ def _oracle(case):
         out.append({"key": f"C10/{t}/root", "what": "tree root is not the requested / drawn root", "detail": f"{o['tree_root']} {root}"})
     P, C, E = _parse_tree(o, n)
     T, S = _parse_trav(o["T"]), _parse_trav(o["S"])
+    if o.get("first_read") is not None and o["first_read"] != [o["P"], o["C"], o["E"]]:
+        out.append({"key": f"C10/{t}/reads-not-repeatable/tables", "what": "reading parent / children / edges a second time gives other values",
+                    "detail": f"{o['first_read'][2][:80]} vs {o['E'][:80]}"})
     if o["T2"] != o["T"] or o["S2"] != o["S"]:
         out.append({"key": f"C10/{t}/traverse-not-repeatable", "what": "a second traversal of the same tree differs from the first",
                     "detail": f"{o['T'][:80]} vs {o['T2'][:80]}"})
@@ -527,6 +572,8 @@ def classify(case, obs):
     if case.get("rrep"): ks.append("root:npint")
     if case.get("xrep"): ks.append("excl-container:" + case["xrep"])
     if case.get("hist"): ks.append("history:recompute-x%d" % len(case["hist"]))
+    if case["t"].endswith("forest"): ks.append("read-twice:" + case.get("read", "trees-first"))
+    if "+union" in str(case["mesh"].get("tag")): ks.append("mesh:disjoint-union")
     if case.get("pre"): ks.append("history:other-trees-before")
     if o["r"] == "ok" and not case["t"].endswith("forest"):
         reached = 1 + sum(1 for p in o["P"].split(",") if p != "N")
